@@ -1,6 +1,7 @@
 // @id C18.sets
 // @engine B
 // @entry vfh_C18_sets
+// @shared_state_watch
 // @tier Q
 // @reach sets.done
 // @funcs Phreeqc::subset_bad; Phreeqc::subset_minimal; Phreeqc::superset_minimal; Phreeqc::set_bit; Phreeqc::get_bits; Phreeqc::save_bad; Phreeqc::save_minimal
@@ -11,6 +12,7 @@
 // @id C18.minimal_solve
 // @engine B
 // @entry vfh_C18_minimal_solve
+// @shared_state_watch
 // @tier Q
 // @reach minimal.done
 // @funcs Phreeqc::minimal_solve; Phreeqc::subset_bad; Phreeqc::save_bad; Phreeqc::set_bit
